@@ -205,6 +205,23 @@ def probe(model, where):
     if gw.grad is None or not np.array_equal(gw.grad, gkeep):
         raise Mismatch(where, "an in-place update under no_autodiff changed its target's gradient to %r" % (gw.grad,))
     # an operation that raises: the arrays a live tracked graph keeps locked stay locked
+    # shape assignment: in the tensor's own array object, and refused where NumPy refuses it
+    A2 = np.arange(6.0).reshape(2, 3)
+    zs = mg.tensor(A2, copy=False)
+    zsd = zs.data
+    zs.shape = (3, 2)
+    if zs.data is not zsd or zs.shape != (3, 2) or A2.shape != (3, 2):
+        raise Mismatch(where, "shape assignment under no_autodiff did not reshape the tensor's own array in place")
+    zt = mg.tensor(np.arange(6.0).reshape(2, 3).T, copy=False)
+    ztd = zt.data
+    try:
+        zt.shape = (6,)
+        refused = False
+    except Exception as e:
+        del e
+        refused = True
+    if not refused or zt.data is not ztd or zt.shape != (3, 2):
+        raise Mismatch(where, "shape assignment NumPy refuses (non-contiguous data) was accepted under no_autodiff (shape now %r)" % (zt.shape,))
     # (the graph lsrc -> lgraph was recorded at the start of this program, after the lock tables were reset)
     try:
         mg.matmul(FIX.lsrc, np.zeros((9, 9)))
